@@ -28,7 +28,7 @@ def run(ctx):
     rng = ctx.rng
     n_dis = 0
     try:
-        n = 350 if ctx.tier == "quick" else 6000
+        n = 350 if ctx.tier == "quick" else 30000
         for i in range(n):
             db = filt.gen_db(rng)
             cmds = [filt.gen_command(rng, db, odd=False) for _ in range(rng.randint(2, 5))]
@@ -64,7 +64,7 @@ def run(ctx):
                                     other if "exc" in other else {"final": other["final"], "ranking": other["ranking"]}])
                     break
         # split / merge equivalences and hide neutrality
-        m = 350 if ctx.tier == "quick" else 6000
+        m = 350 if ctx.tier == "quick" else 30000
         for i in range(m):
             db = filt.gen_db(rng)
             kind = i % 3
@@ -102,7 +102,7 @@ def run(ctx):
                 if n_dis <= 3:
                     filt.report_disagreement(ctx, "pipeline differs from the model", db, b, drv)
         # the meta/program equivalences
-        k = 300 if ctx.tier == "quick" else 5000
+        k = 300 if ctx.tier == "quick" else 25000
         for i in range(k):
             db = filt.gen_db(rng, meta_program="always", imports=False)
             X = filt.gen_taxon_pattern(rng, db)
